@@ -85,18 +85,17 @@ def memo_invalidation(ctx):
                   and isinstance(n.ast.value.func, ast.Attribute) and n.ast.value.func.attr == 'clear'
                   and _self_attr_root(n.ast.value.func.value) == '_type_cache']
         resets += clears
+        # (register_op too: it only adds pairs that were absent, but an absent pair may have been
+        # looked up -- and its miss memoised -- before the op was declared)
         if name == 'register_op':
-            # exempt with a checked precondition: only adds pairs absent from the map
-            # every store ``<map>[t] = handler`` is reachable only when t is not yet in that map
-            skip = []
-            # (the per-type stores: a handler filed under a type inside the loop over known types;
-            # re-filing the whole per-op map under its own name afterwards replaces nothing)
+            # declaring an op discovers handlers for the known types that have none: an explicitly
+            # registered handler is never replaced by the discovered one
             per_type = [s for s in stores if s.loop_stack and isinstance(s.ast, ast.Assign)
                         and any(isinstance(t, ast.Subscript) and is_name(t.value) for t in s.ast.targets)]
-            ok = bool(per_type)
-            for s in per_type:
-                sn = s
-                tgt = [t for t in sn.ast.targets if isinstance(t, ast.Subscript)] if isinstance(sn.ast, ast.Assign) else []
+            okp = bool(per_type)
+            shown = []
+            for sn in per_type:
+                tgt = [t for t in sn.ast.targets if isinstance(t, ast.Subscript)]
                 guarded = False
                 for t in cfg.nodes:
                     if t.kind != 'test' or not tgt:
@@ -107,12 +106,10 @@ def memo_invalidation(ctx):
                         if cfg.find_path(t, {sn}, avoid={hdr} if hdr else (), labels=lambda l: l != 'exc',
                                          start_labels=lambda l, e=pol: l == e) is None:
                             guarded = True
-                            skip.append(norm(t.ast))
-                ok = ok and guarded
-            ok = ok or bool(resets)
-            ctx.ob(ok, u, 'register_op never replaces the handler of an already known (type, op) pair '
-                          '(so no memo entry can become stale): %s' % skip)
-            continue
+                            shown.append(norm(t.ast))
+                okp = okp and guarded
+            ctx.ob(okp, u, 'register_op never replaces the handler of an already known (type, op) pair: %s' % shown,
+                   '' if okp else 'an explicit registration is overwritten by the discovered handler when the op is declared (again)')
         for s in stores:
             # every path from the store to the normal exit passes a reset
             ok, path = cfg.must_pass(s, {cfg.exit}, set(resets), labels=lambda l: l != 'exc')
